@@ -50,7 +50,7 @@ Cands ==
                    ra \in Step(rb.p, EvOp, maxConn, maxReq)} : rb \in Step(p, NewUp, maxConn, maxReq)}
 
 OpenSet(q) == In(q, "leased") \cup In(q, "idle") \cup In(q, "orphan")
-ReqBook(q) == IF maxReq = 0 THEN 0 ELSE q.req      \* the resource only counts when a limit is configured
+ReqBook(q) == q.req      \* the resource counts whether or not a limit is configured (fix 5ab5b615d)
 
 MResult(r) == /\ r.res = Ev.res
               /\ (Ev.op = "new" /\ Ev.res = "ok") => r.c = Ev.c
